@@ -292,6 +292,9 @@ theorem findMe_ok {H : List Iri} (F : TFacts) (site : String) (xs : List J) (me 
 theorem needProp_ok {H : List Iri} (F : TFacts) (site : String) (v : J) (p : String) : LockOK re aw ad H (needProp F site v p) := by
   unfold needProp; lk_auto
 
+theorem needPropE_ok {H : List Iri} (F : TFacts) (v : J) (p : String) : LockOK re aw ad H (needPropE F v p) := by
+  unfold needPropE; lk_auto
+
 theorem fedCreate_ok (F : TFacts) (cfg : CbConfig) (box : Iri) (a : J) : LockOK re aw ad [] (fedCreate F cfg box a) := by
   unfold fedCreate
   apply Lk.bind (requireObject_ok _ _); intro op
@@ -369,9 +372,11 @@ theorem acceptFindFollow_ok (F : TFacts) (box : Iri) (op : List J) (actorIRI : I
     split
     · exact Lk.pure' _
     · apply Lk.bind (Lk.liftLib _); intro followId
-      apply Lk.bind (needProp_ok _ _ _ _); intro actors
-      apply Lk.bind (by lk_auto); intro me
-      exact Lk.bind (findMe_ok _ _ _ _) fun hit => Lk.pure' _
+      unfold acceptMatchFollow
+      split
+      · exact Lk.pure' _
+      · apply Lk.bind (by lk_auto); intro me
+        exact Lk.bind (findMe_ok _ _ _ _) fun hit => Lk.pure' _
 
 theorem acceptVerifyStored_ok {k : Iri} (F : TFacts) (followIRI actorIRI : Iri) (aa : List J) :
     LockOK re aw ad [k] (acceptVerifyStored F followIRI actorIRI aa) := by
@@ -380,14 +385,14 @@ theorem acceptVerifyStored_ok {k : Iri} (F : TFacts) (followIRI actorIRI : Iri) 
   apply Lk.bind (Lk.needVal _ _); intro t
   split
   · exact Lk.fail _
-  · apply Lk.bind (needProp_ok _ _ _ _); intro actors
+  · apply Lk.bind (needPropE_ok _ _ _); intro actors
     apply Lk.bind (by lk_auto); intro me
     apply Lk.bind (findMe_ok _ _ _ _); intro ok
     split
     · exact Lk.fail _
     · apply Lk.bind (Lk.idsM _ _); intro acceptIds
       apply Lk.bind (Lk.strsOf _ _); intro acceptIds
-      apply Lk.bind (needProp_ok _ _ _ _); intro followObj
+      apply Lk.bind (needPropE_ok _ _ _); intro followObj
       lk_auto
 
 theorem acceptNonEmptyActors_ok {H : List Iri} (F : TFacts) (a : J) : LockOK re aw ad H (acceptNonEmptyActors F a) := by
